@@ -11,8 +11,13 @@ correspondence : (1) Kekule.__prepare_rings == Model.Kekule.prepare_rings on an 
                  forms the real generator yields (with and without the pyridine buffer), or its InvalidAromaticRing, are
                  compared with Model.Kekule.kekule_component;
                  (5) thiele() with fix_tautomers False and True == Model.Thiele.thiele_model / thiele_model_t;
-                 (6) the decidable hypotheses chain_hyp of Proofs.KekuleLink.kekule_chain (search soundness composed with
-                 kekule_rel_core) are evaluated on every input with the arguments the real code computed.
+                 (6) the decidable hypotheses chain_hyp2 of Proofs.KekulePrep.kekule_prepare_chain (model of __prepare_rings +
+                 search soundness composed with kekule_rel_core) are evaluated on every input;
+                 (7) intermediate states of the search: the locals stack / path / buffer_size / buffer of the running generator
+                 at the head of the iterations of `while stack:` (sys.settrace) against Proofs.KekuleTrace.ktrace.
+tie            : tools/gen_kekulecls.py, tools/gen_thielecls.py regenerate the per-atom decision trees of __prepare_rings and
+                 every decision of the ring loop of thiele() from the source on each run; Proofs.KekuleGenTie proves the
+                 hand-written models equal to them.
 search         : independent of the model, on the real code: atoms / charges / radicals / connectivity unchanged, idempotence
                  of both conversions, fixpoints of the compositions, every enumerated form aromatises to the same
                  canonical string (unsaturated four-membered rings excluded and counted), valence and hydrogen counts of
@@ -36,7 +41,7 @@ from coqfmt import zraw, b, lst, opt, tup
 replay = common.generic_replay
 
 PRELUDE = '''From Model Require Import Graph Kekule Thiele.
-From Proofs Require Import KekuleSound KekuleLink KekulePrep.
+From Proofs Require Import KekuleSound KekuleLink KekulePrep KekuleTrace.
 Import ListNotations.
 Open Scope Z_scope.
 Definition A (n num chg h : Z) : Z * atom := (n, mkAtom num None chg false (Some h) None).
@@ -105,6 +110,16 @@ Definition kc_ok (rings : adjl) (db : list Z) (dbs : Z) (pyr : list Z) (bs maxy 
   | Ok (ys', r, _) => list_eqb (list_eqb kentry_eqb) ys' ys && Bool.eqb r raised && list_eqb Bool.eqb (map (form_sound rings db pyr) ys') sound &&
                       Bool.eqb (rings_wf2 rings db pyr) wf
   | Err _ => false
+  end.
+(* intermediate states of the search: stack (top first), path, buffer_size, buffered forms at the head of the first iterations of `while stack:` *)
+Definition I (a p o : Z) (c : option Z) : kitem := (a, p, o, c).
+Definition ksnap_eqb (x y : ksnap) : bool :=
+  let '(st, pa, bs, nb) := x in let '(st', pa', bs', nb') := y in
+  list_eqb (list_eqb kitem_eqb) st st' && list_eqb kentry_eqb pa pa' && (bs =? bs') && (nb =? nb').
+Definition tr_ok (rings : adjl) (db : list Z) (dbs : Z) (pyr : list Z) (bs : Z) (tr : list ksnap) : bool :=
+  match kinit rings db dbs pyr bs with
+  | Ok (db', start, size, s) => list_eqb ksnap_eqb (ktrace rings db' pyr start size (List.length tr) s) tr
+  | Err _ => match tr with [] => true | _ => false end
   end.
 (* the per-atom function alone, for the states that reach the atom loop *)
 Definition cls_ok (num chg : Z) (rad : bool) (nb : Z) (h : option Z) (indb : bool) (code : Z) : bool :=
@@ -562,6 +577,7 @@ class Pipe:
         self.excluded_4ring = 0
         self.excluded_4ring_inconsistent = 0
         self.rdkit_compared = 0
+        self.traced = 0
 
     def bad(self, dom, key, what, label, observed, expected, oracle, code, extra=None):
         """a property-level failure on the real code: reported inside the domain, counted outside"""
@@ -904,6 +920,14 @@ class Pipe:
                     if v:
                         report_unsound(self.ck, rings, dbl, pyr, bs, y, v, label)
                 cases.append((kc_case(rings, dbl, dbs, pyr, bs, k_yields, ys, raised, verdicts), ('search', label, list(m0._atoms), bs), 'prep'))
+                if bs == 7:
+                    if self.traced % (4 if self.ck.tier == 'quick' else 2) == 0:
+                        snaps = trace_component(rings, dbl, dbs, pyr, bs, k_yields, 12 if self.ck.tier == 'quick' else 24)
+                        if snaps:
+                            cases.append((trace_case(rings, dbl, dbs, pyr, bs, snaps), ('search trace', label, list(m0._atoms), bs), 'prep'))
+                            self.ck.case(('search trace', label, tuple(m0._atoms), tuple(rings)), nontrivial=len(snaps) > 1)
+                            self.ck.count('search trace: iterations of `while stack:` compared state by state', len(snaps))
+                    self.traced += 1
                 self.ck.case(('search', label, tuple(m0._atoms), bs, tuple(rings)), nontrivial=bool(ys))
                 self.ck.count('search: component ' + ('satisfies' if component_wf(rings, dbl, pyr) else 'does not satisfy') + ' the hypotheses of kekule_component_sound')
                 self.ck.count(f'search: buffer={bs}: {"InvalidAromaticRing" if raised else str(len(ys)) + " form(s) compared"}')
@@ -1198,6 +1222,60 @@ def thiele_case(m, gname, rname, i, taut=False):
     return f'Definition tf{i} := {mol_t(a)}.', case, a, ret, reached, bool(freaks)
 
 
+_TRACE_LINE = []
+
+
+def trace_component(rings, dbl, dbs, pyr, bs, k_yields, k_snaps):
+    """the real generator, advanced as kc_case advances it, with the locals (stack, path, buffer_size, buffer) recorded every
+    time `while stack:` enters its body (first k_snaps iterations); None when the set order is not reproducible"""
+    import inspect
+    import sys
+    import chython.algorithms.aromatics.kekule as km
+    from chython.exceptions import InvalidAromaticRing
+    fn = km._kekule_component
+    if not _TRACE_LINE:
+        src, first = inspect.getsourcelines(fn)
+        hits = [i for i, line in enumerate(src) if line.strip() == 'atom, prev_atom, bond, _ = stack[-1].pop()']
+        if len(hits) != 1:
+            raise RuntimeError('first statement of the `while stack:` body of _kekule_component not found')
+        _TRACE_LINE.append(first + hits[0])
+    code = fn.__code__
+    snaps = []
+
+    def local(frame, event, arg):
+        if event == 'line' and frame.f_lineno == _TRACE_LINE[0] and len(snaps) < k_snaps:
+            loc = frame.f_locals
+            snaps.append(([list(x) for x in loc['stack']], list(loc['path']), loc['buffer_size'], len(loc['buffer'])))
+        return local
+
+    def tracer(frame, event, arg):
+        return local if frame.f_code is code else None
+    db2 = set(dbl)
+    if dbl and next(iter(db2)) != dbs:
+        return None
+    old = sys.gettrace()
+    sys.settrace(tracer)
+    try:
+        try:
+            list(itertools.islice(fn({n: list(ms) for n, ms in rings.items()}, db2, set(pyr), bs), k_yields))
+        except InvalidAromaticRing:
+            pass
+    finally:
+        sys.settrace(old)
+    return snaps
+
+
+def trace_case(rings, dbl, dbs, pyr, bs, snaps):
+    rt = lst([tup(zraw(n), lst(ms, zraw)) for n, ms in rings.items()])
+
+    def item(x):
+        a, p_, o, c = x
+        return f'I {zraw(a)} {zraw(p_)} {o} {"None" if c is None else f"(Some {zraw(c)})"}'
+    st = lst([tup(lst([lst([item(x) for x in level]) for level in reversed(stack)]), lst([f'E {zraw(a)} {zraw(p_)} {o}' for a, p_, o in path]), zraw(bsz), zraw(nbuf))
+              for stack, path, bsz, nbuf in snaps])
+    return f'tr_ok {rt} {lst(dbl, zraw)} {zraw(dbs)} {lst(pyr, zraw)} {bs} {st}'
+
+
 def kc_case(rings, dbl, dbs, pyr, bs, k_yields, ys, raised, verdicts):
     rt = lst([tup(zraw(n), lst(ms, zraw)) for n, ms in rings.items()])
     yt = lst([lst([f'E {zraw(a)} {zraw(p_)} {o}' for a, p_, o in y]) for y in ys])
@@ -1363,9 +1441,92 @@ def search_fuzz(ck, cs, n_graphs, n_coq):
                 ck.count('search fuzz: unsound form')
             if j < n_coq:
                 cases.append((kc_case(rings, dbl, dbs, pyr, bs, 4, ys, raised, verdicts), ('search', f'generated component {j}', [], bs), 'prep'))
+                if bs == 7 and j % (3 if ck.tier == 'quick' else 2) == 0:
+                    snaps = trace_component(rings, dbl, dbs, pyr, bs, 4, 12 if ck.tier == 'quick' else 24)
+                    if snaps:
+                        cases.append((trace_case(rings, dbl, dbs, pyr, bs, snaps), ('search trace', f'generated component {j}', [], bs), 'prep'))
+                        ck.case(('fuzz trace', j), nontrivial=len(snaps) > 1)
+                        ck.count('search trace: iterations of `while stack:` compared state by state', len(snaps))
     if todo and not any(form_unsound(WITNESS[0], set(WITNESS[1]), set(WITNESS[2]), y)
                         for y in itertools.islice(_kekule_component({n: list(ms) for n, ms in WITNESS[0].items()}, set(WITNESS[1]), set(WITNESS[2]), 7), 4)):
         ck.count('witness of kekule_component_sound_refuted is sound on the real code now: the model has to follow the code')
+    cs.add([], cases)
+
+
+def _plain_ring(n):
+    return {i: [(i - 2) % n + 1, i % n + 1] for i in range(1, n + 1)}
+
+
+def _fused_pair(a, b_):
+    adj = _plain_ring(a)
+    k, prev = a, 1
+    for _ in range(b_ - 2):
+        k += 1
+        adj[k] = []
+        adj[prev].append(k)
+        adj[k].append(prev)
+        prev = k
+    adj[prev].append(2)
+    adj[2].append(prev)
+    return adj
+
+
+def matching_exists(rings, db, pyr):
+    """brute force over all subsets of the skeleton bonds: is there an assignment of double bonds that gives double_bonded
+    atoms none, pyrrole-type atoms at most one and plain atoms exactly one (independent of the search and of the model)"""
+    bonds = sorted({tuple(sorted((n, m))) for n, ms in rings.items() for m in ms})
+    for mask in range(1 << len(bonds)):
+        d = dict.fromkeys(rings, 0)
+        for i, (a, c_) in enumerate(bonds):
+            if mask >> i & 1:
+                d[a] += 1
+                d[c_] += 1
+        if all((d[n] == 0) if n in db else (d[n] <= 1) if n in pyr else d[n] == 1 for n in rings):
+            return True
+    return False
+
+
+def exhaustive_small(ck, cs):
+    """EVERY assignment plain / double_bonded / pyrroles of the atoms of small skeletons (single rings of 4-6 atoms; thorough:
+    also 7 and the fused pairs 5-5, 5-6, 6-6; double_bonded atoms never condensed, as __prepare_rings guarantees): the real
+    search is sound (every form is a matching) AND complete (it raises exactly when no matching exists: brute force over all
+    subsets of bonds); thorough: the single rings also against the Coq model"""
+    from chython.algorithms.aromatics.kekule import _kekule_component
+    from chython.exceptions import InvalidAromaticRing
+    spaces = [('ring4', _plain_ring(4)), ('ring5', _plain_ring(5)), ('ring6', _plain_ring(6))]
+    if ck.tier != 'quick':
+        spaces += [('ring7', _plain_ring(7)), ('fused5-5', _fused_pair(5, 5)), ('fused5-6', _fused_pair(5, 6)), ('fused6-6', _fused_pair(6, 6))]
+    cases = []
+    for name, rings in spaces:
+        atoms = list(rings)
+        for cls in itertools.product((0, 1, 2), repeat=len(atoms)):
+            dbl = [a for a, k in zip(atoms, cls) if k == 1]
+            pyr = [a for a, k in zip(atoms, cls) if k == 2]
+            if any(len(rings[a]) == 3 for a in dbl):
+                continue
+            ex = matching_exists(rings, set(dbl), set(pyr))
+            for bs in (7, 0):
+                db2 = set(dbl)
+                dbs = next(iter(db2)) if db2 else 0
+                raised = False
+                try:
+                    ys = list(itertools.islice(_kekule_component({n: list(ms) for n, ms in rings.items()}, db2, set(pyr), bs), 6))
+                except InvalidAromaticRing:
+                    ys, raised = [], True
+                verdicts = [form_unsound(rings, set(dbl), set(pyr), y) for y in ys]
+                for y, v in zip(ys, verdicts):
+                    if v:
+                        report_unsound(ck, rings, dbl, pyr, bs, y, v, f'exhaustive {name}')
+                if ex == raised:
+                    ck.counterexample(f'search-incomplete:{name}' if ex else f'search-form-without-matching:{name}',
+                                      '_kekule_component raises InvalidAromaticRing although a Kekule form exists' if ex else
+                                      '_kekule_component yields a form although no assignment of double bonds satisfies the atom classes',
+                                      {'rings': rings, 'double_bonded': dbl, 'pyrroles': pyr, 'buffer_size': bs}, 'InvalidAromaticRing' if raised else ys,
+                                      'a form' if ex else 'InvalidAromaticRing', 'brute force over all subsets of the skeleton bonds')
+                ck.case(('exhaustive', name, cls, bs), nontrivial=bool(ys))
+                ck.count(f'search exhaustive {name}: ' + ('no matching exists, InvalidAromaticRing' if raised else 'forms (sound; a matching exists)'))
+                if ck.tier != 'quick' and bs == 7 and name.startswith('ring') and len(atoms) <= 6:
+                    cases.append((kc_case(rings, dbl, dbs, pyr, bs, 6, ys, raised, verdicts), ('search', f'exhaustive {name} {cls}', [], bs), 'prep'))
     cs.add([], cases)
 
 
@@ -1584,6 +1745,7 @@ def run(ck):
     cs = Cases('c05')
     corr_grid(ck, cs)
     search_fuzz(ck, cs, 1200 if ck.tier == 'quick' else 20000, 300 if ck.tier == 'quick' else 1500)
+    exhaustive_small(ck, cs)
     t_grid = time.time()
     pipe = Pipe(ck, cs)
     rng = random.Random(f'{ck.seed}:c05:renumber')
@@ -1620,7 +1782,7 @@ def run(ck):
     ck.extra['seconds'] = {'proof steps': round(t_proof - t00, 1), 'grid': round(t_grid - t_proof, 1), 'real code + oracles': round(t_py - t_grid, 1), 'coq cases': round(time.time() - t_py, 1)}
     prep_failed = [c for c in failed if c[2] == 'prep']
     rel_failed = [c for c in failed if c[2] != 'prep']
-    ck.oblige('correspondence: Kekule.__prepare_rings == Model.Kekule.prepare_rings (atom-state grid + whole molecules), kekule() == kekule_driver given the search result, _kekule_component == kekule_component (molecules + generated components), thiele(fix_tautomers=False / True) == Model.Thiele.thiele_model / thiele_model_t, hypotheses of kekule_prepare_chain (chain_hyp2) hold exactly on the inputs whose aromatic bonds are the skeleton bonds',
+    ck.oblige('correspondence: Kekule.__prepare_rings == Model.Kekule.prepare_rings (atom-state grid + whole molecules), kekule() == kekule_driver given the search result, _kekule_component == kekule_component (molecules + generated components; yields and, state by state, stack / path / buffer at the head of the first iterations of `while stack:`), thiele(fix_tautomers=False / True) == Model.Thiele.thiele_model / thiele_model_t, hypotheses of kekule_prepare_chain (chain_hyp2) hold exactly on the inputs whose aromatic bonds are the skeleton bonds',
               ok and not prep_failed, 'correspondence', log[-1500:] or str([c[1] for c in prep_failed[:5]]))
     ck.oblige('every kekule() / enumerate_kekule() / thiele() output is accepted by the Coq checkers kekule_rel / thiele_rel', ok and not rel_failed,
               'correspondence', str([c[1] for c in rel_failed[:5]]))
